@@ -412,8 +412,11 @@ class Contract:
                  raise_when=None, setup=None, twins=None, replay=None, top=False, note='',
                  checks=None, inline_callees=(), typed=False, param_alternatives=None, gen_loops=None,
                  old_at='entry', kwargs_type=None, monitor=False, events=True, raise_effects=None,
-                 reach=True, optional=False, top_level=False):
+                 reach=True, optional=False, top_level=False, requires_held=()):
         self.target = target
+        # requires_held: names of lock fields of `self` the CALLER holds (private helpers of a monitor): acquired before the
+        # body at the root (not expected to be released by it), an obligation at every call site
+        self.requires_held = tuple(requires_held)
         # top_level: an entry point that verified code never calls through this contract (task mains run by the
         # executor, public API).  No frame obligations are generated for it, and using it at a call site is an error.
         self.top_level = top_level
